@@ -145,7 +145,7 @@ def _parse_block(lines: list[str]):
         elif word == "raw":
             d["raw"] = True
         elif word == "fragment":
-            k, o = rest.split()
+            k, o = rest.split(None, 1)
             d["fragment"] = (k, int(o) if o.isdigit() else o)
         elif word == "subst":
             a, _, b = rest.partition("=>")
